@@ -41,6 +41,7 @@ type Run struct {
 	Notes    []string
 	floors   []floor
 	fatal    []string
+	extra    map[string]any
 	tables   map[string]map[string]string // table name -> key -> reason
 	known    *KnownFile
 }
@@ -150,6 +151,14 @@ func (r *Run) Fatal(format string, args ...any) {
 	r.fatal = append(r.fatal, fmt.Sprintf(format, args...))
 }
 
+// Extra attaches an additional key to the evidence coverage object.
+func (r *Run) Extra(key string, v any) {
+	if r.extra == nil {
+		r.extra = map[string]any{}
+	}
+	r.extra[key] = v
+}
+
 // Tick records the elapsed time at a phase boundary (reported in the evidence).
 func (r *Run) Tick(label string) {
 	r.Analysed["t_ms_"+label] = int(time.Since(r.Start).Milliseconds())
@@ -200,6 +209,9 @@ func (r *Run) Finish(out string) int {
 	sort.SliceStable(r.Obligs, func(i, j int) bool { return r.Obligs[i].Key < r.Obligs[j].Key })
 	open, known, discharged := 0, 0, 0
 	vdir := filepath.Join(r.VerifDir, "evidence", "violations")
+	if d := os.Getenv("J5CHECK_VIOLATION_DIR"); d != "" {
+		vdir = d // mutant self-test subprocesses must not write into /verif/evidence
+	}
 	for _, o := range r.Obligs {
 		switch {
 		case o.Open():
@@ -318,6 +330,9 @@ func (r *Run) writeEvidence(out string, violations, known, discharged int) {
 		"checker_cmd":         fmt.Sprintf("bin/j5check -prop %s -tier %s", r.Prop, r.Tier),
 		"trusted_base":        []string{"go/types, go/ssa, go/cfg and the call-graph builders of golang.org/x/tools v0.29.0", "go list / the Go 1.24.1 toolchain for package loading"},
 		"exhaustive":          true,
+	}
+	for k, v := range r.extra {
+		cov[k] = v
 	}
 	if len(openList) > 0 {
 		cov["open_obligations"] = openList
